@@ -11,9 +11,11 @@ import (
 	"encoding/base64"
 	"encoding/json"
 	"fmt"
+	"io"
 	"net/http"
 	"strings"
 	"testing"
+	"testing/iotest"
 	"time"
 
 	"github.com/google/certificate-transparency-go/trillian/ctfe"
@@ -50,6 +52,12 @@ type Case struct {
 	// BrokenWrites lists (as indices into the sequence of submissions) requests whose client hangs up: the
 	// response write fails. Whatever happens to them, later answers must be untouched by it.
 	BrokenWrites []int
+	// BodyStyle re-spells the JSON request body without changing what it says (1: indented with white space
+	// around it, 2: unknown members before and after "chain", 3: "/" and "+" of the base64 text written as JSON
+	// escapes, 4: the member name written with an escape). Dribble: the body arrives with unknown length,
+	// one octet per read.
+	BodyStyle int
+	Dribble   bool
 	// Verbosity is the process-wide klog -v level (0 default; debug logging must not change what is logged in the log)
 	Verbosity int
 }
@@ -70,6 +78,10 @@ func gen(t *rapid.T) Case {
 	if rapid.IntRange(0, 2).Draw(t, "verbose") == 0 {
 		c.Verbosity = rapid.IntRange(1, 5).Draw(t, "v")
 	}
+	if rapid.IntRange(0, 2).Draw(t, "respell") == 0 {
+		c.BodyStyle = rapid.IntRange(1, 4).Draw(t, "bodystyle")
+	}
+	c.Dribble = rapid.IntRange(0, 3).Draw(t, "dribble") == 0
 	n := rapid.IntRange(1, 8).Draw(t, "steps")
 	fresh := 0
 	for i := 0; i < n; i++ {
@@ -108,6 +120,55 @@ type addChainRsp struct {
 	Timestamp  *uint64 `json:"timestamp"`
 	Extensions *string `json:"extensions"`
 	Signature  *string `json:"signature"`
+}
+
+// styledBody spells the same request in another legal way (see Case.BodyStyle).
+func styledBody(chain [][]byte, style int) []byte {
+	var b64 []string
+	for _, c := range chain {
+		b64 = append(b64, base64.StdEncoding.EncodeToString(c))
+	}
+	quote := func(s string) string { return `"` + s + `"` }
+	switch style {
+	case 1:
+		out := " \n\t{\n  \"chain\" :\t[\n"
+		for i, s := range b64 {
+			out += "    " + quote(s)
+			if i < len(b64)-1 {
+				out += " ,"
+			}
+			out += "\r\n"
+		}
+		return []byte(out + "  ]\n}\n \n")
+	case 2:
+		return []byte(`{"aaa":{"chain":["AAAA"],"x":[1,2,{"chain":null}]},"chain":[` + strings.Join(mapStr(b64, quote), ",") + `],"zzz":null,"chains":["AAAA"]}`)
+	case 3:
+		esc := func(s string) string {
+			return quote(strings.ReplaceAll(strings.ReplaceAll(s, "/", `\/`), "+", `\u002b`))
+		}
+		return []byte(`{"chain":[` + strings.Join(mapStr(b64, esc), ",") + `]}`)
+	case 4:
+		return []byte(`{"\u0063h\u0061in":[` + strings.Join(mapStr(b64, quote), ",") + `]}`)
+	}
+	return body(chain)
+}
+
+func mapStr(in []string, f func(string) string) []string {
+	out := make([]string, len(in))
+	for i, s := range in {
+		out[i] = f(s)
+	}
+	return out
+}
+
+// dribble makes a request body arrive with unknown length, one octet per read.
+func dribble(r *http.Request) {
+	if r.Body != nil && r.Body != http.NoBody {
+		r.Body = io.NopCloser(iotest.OneByteReader(r.Body))
+		r.ContentLength = -1
+		r.Header.Del("Content-Length")
+		r.TransferEncoding = []string{"chunked"}
+	}
 }
 
 func body(chain [][]byte) []byte {
@@ -198,6 +259,13 @@ func check(t *testing.T, c Case) (v harness.Verdict) {
 	if err != nil {
 		t.Fatalf("instance: %v", err)
 	}
+	if c.Dribble {
+		inst.ReqTweak = dribble
+		v.Class("body-of-unknown-length-dribbled")
+	}
+	if c.BodyStyle != 0 {
+		v.Class(fmt.Sprintf("json-body-style:%d", c.BodyStyle))
+	}
 	broken := map[int]bool{}
 	for _, b := range c.BrokenWrites {
 		broken[b] = true
@@ -227,7 +295,7 @@ func check(t *testing.T, c Case) (v harness.Verdict) {
 		if broken[nSubmit-1] {
 			// this client hangs up before the response is written; nothing is judged about this request
 			inst.FailWrites = true
-			inst.Post(path, body(chain))
+			inst.Post(path, styledBody(chain, c.BodyStyle))
 			inst.FailWrites = false
 			v.Class("client-hung-up")
 			if dupOf == nil {
@@ -238,7 +306,7 @@ func check(t *testing.T, c Case) (v harness.Verdict) {
 			}
 			return
 		}
-		rsp := inst.Post(path, body(chain))
+		rsp := inst.Post(path, styledBody(chain, c.BodyStyle))
 		if rsp.Status != 200 {
 			if c.LogKeyKind == "ed25519" && rsp.Status >= 500 {
 				v.Class("ed25519-log-key-refused")
